@@ -189,7 +189,8 @@ let run_wirein kvs _ =
 
 (* ---- suite close ---- *)
 let run_close kvs _ =
-  let steps = String.split_on_char '|' (get kvs "steps") in
+  (* pmsg (a received message left unread / partly read) is not a call of the close state machine: it changes no close state *)
+  let steps = List.filter (fun st -> not (String.length st >= 4 && String.sub st 0 4 = "pmsg")) (String.split_on_char '|' (get kvs "steps")) in
   let ops = List.map (fun st -> match String.split_on_char '~' st with
     | ["close"; c; r] -> AClose (z_of_int (int_of_string c), bytes_of_string (payload r))
     | ["closenow"] -> ACloseNow
